@@ -107,6 +107,7 @@ def build(prop_targets, need_release=False, need_cli=False):
         res.translator_log = out
         if rc != 0:
             res.translator_ok = False
+        run([sys.executable, os.path.join(VERIF, "translate", "gen_known.py")], 60)
         rc2, out2, _ = run([sys.executable, os.path.join(VERIF, "translate", "gen_cells.py")], 60) \
             if os.path.exists(os.path.join(VERIF, "translate", "gen_cells.py")) else (0, "", 0)
         res.translator_log += out2
